@@ -1,20 +1,151 @@
 (* Mini/ProofsAgree.v — the checker only looks at the identifiers a phrase mentions (agreement lemmas), and the two
    rewrites that rest on it: exchanging two adjacent independent declarations (R1) and adding an unused declaration
    (R5) preserve validity (C05).  Proofs.  Functional extensionality (Coq.Logic.FunctionalExtensionality) may be used:
-   environments are functions. *)
+   environments are functions.
+
+   Helper files: Mini/ProofsAgreeBase.v (agreement lemmas, lifting to programs), Mini/ProofsAgreeSwap.v (R1),
+   Mini/ProofsAgreeAdd.v (R5). *)
 From Coq Require Import List NArith Arith Bool Lia FunctionalExtensionality.
 Import ListNotations.
 From RH Require Import Mini.Syntax Mini.Sem Mini.Walk Mini.Faults Mini.Rewrites.
+From RH Require Import Mini.ProofsAgreeBase Mini.ProofsAgreeSwap Mini.ProofsAgreeAdd.
 Open Scope N_scope.
 
-(* PINNED STATEMENTS (to be proved; do not change the statements) *)
+Lemma dunit_eta u : DUnit (u_ctx u) (u_body u) = u.
+Proof. destruct u; reflexivity. Qed.
+
+Lemma swap_ubody_id s b : ~ In s (dsites_ubody b) -> swap_ubody s b = b.
+Proof.
+  destruct b; cbn [dsites_ubody swap_ubody]; intros H; try reflexivity.
+  - rewrite swap_decls_id; [reflexivity|exact H].
+  - rewrite swap_decls_id; [reflexivity|exact H].
+  - rewrite swap_decls_id, (proj2 (swap_concs_id s)); [reflexivity| |]; intro Hin; apply H; apply in_or_app; [right|left]; exact Hin.
+  - rewrite swap_decls_id; [reflexivity|exact H].
+Qed.
+Lemma swap_ok_ubody_site s b : swap_ok_ubody s b = true -> In s (dsites_ubody b).
+Proof.
+  destruct b; cbn [dsites_ubody swap_ok_ubody]; try discriminate; intros H; try (eapply swap_ok_site; exact H).
+  apply orb_true_iff in H. apply in_or_app. destruct H as [H|H]; [left; eapply swap_ok_site; exact H|right; apply (proj2 (swap_ok_concs_site s)); exact H].
+Qed.
+
+(* PINNED STATEMENTS *)
 
 Theorem swap_valid : forall p s,
   Valid p -> applicable (RSwap s) p = true -> Valid (apply_rewrite (RSwap s) p).
 Proof.
-Admitted.
+  intros p s HV HA. unfold applicable in HA. apply andb_true_iff in HA. destruct HA as [Hnd Hex].
+  apply nodup_list_sound in Hnd. unfold Valid, check_program, check_program_md in *.
+  cbn [apply_rewrite]. rewrite map_units_names.
+  apply bind_ok_inv in HV. destruct HV as [x0 [H0 HV]]. rewrite H0. cbn [bind].
+  apply bind_ok_inv in HV. destruct HV as [GE' [HGE HV]].
+  set (f := fun u : dunit => DUnit (u_ctx u) (swap_ubody s (u_body u))).
+  assert (HL : check_libs Exactly [] (map l_name p) 0 (map (map_lib f) p) = Ok GE').
+  { apply (lift_libs Exactly (map l_name p) s f (fun u => swap_ok_ubody s (u_body u)) ginv (fun _ => True)).
+    - intros u Hu. unfold f. rewrite swap_ubody_id; [apply dunit_eta|]. intro Hin. apply Hu. apply dsites_dunit_nids. exact Hin.
+    - intros u Hu. apply dsites_dunit_nids. apply swap_ok_ubody_site. exact Hu.
+    - intros GE lib uid u g GI _ Hh Nd Hc. apply swap_unit_ok; assumption.
+    - intros GE lib uid u g GI _ Hc. eapply check_unit_ginv; eassumption.
+    - intros g [].
+    - apply Forall_forall. intros l _. apply Forall_forall. intros u _. exact I.
+    - exact Hnd.
+    - exact Hex.
+    - exact HGE. }
+  change (map_units f p) with (map (map_lib f) p). rewrite HL. cbn [bind]. exact HV.
+Qed.
 
-Theorem adddecl_valid : forall p s x k,
-  Valid p -> applicable (RAddDecl s x k) p = true -> Valid (apply_rewrite (RAddDecl s x k) p).
+(* `adddecl_valid` AS PINNED IS FALSE (see the UNPROVED block at the end of this file); what holds is the statement
+   with three extra hypotheses: the fresh identifier is not one of the two predefined literals, and — unless the
+   inserted declaration does not mention `true` (k = 0, k = 2) — the identifier id_true is never declared in p. *)
+Definition never_declared (z : ident) (p : program) : Prop := forall n, ~ In (n, OOther, z) (occs_program p).
+Definition adddecl_side (p : program) (x : ident) (k : N) : Prop :=
+  x <> id_true /\ x <> id_false /\ (k = 0 \/ k = 2 \/ never_declared id_true p).
+
+Lemma add_sites_hit s p :
+  memb s (add_sites p) = true ->
+  existsb (fun l => existsb (fun u => memb s (asites_ubody (u_body u))) (l_units l)) p = true.
 Proof.
-Admitted.
+  intros H. apply memb_In in H. unfold add_sites in H. apply in_flat_map in H. destruct H as [l [Hl H]].
+  apply in_flat_map in H. destruct H as [u [Hu H]].
+  apply existsb_exists. exists l. split; [exact Hl|]. apply existsb_exists. exists u. split; [exact Hu|].
+  apply memb_In. destruct (u_body u); exact H.
+Qed.
+
+Theorem adddecl_valid_partial : forall p s x k,
+  Valid p -> applicable (RAddDecl s x k) p = true -> adddecl_side p x k ->
+  Valid (apply_rewrite (RAddDecl s x k) p).
+Proof.
+  intros p s x k HV HA [Hx1 [Hx2 Hk]]. unfold applicable in HA. apply andb_true_iff in HA. destruct HA as [Hnd HA].
+  apply andb_true_iff in HA. destruct HA as [HA Hsite]. apply andb_true_iff in HA. destruct HA as [Hfresh Hx0].
+  apply negb_true_iff in Hfresh. apply memb_false in Hfresh. apply negb_true_iff in Hx0. apply N.eqb_neq in Hx0.
+  apply nodup_list_sound in Hnd. unfold Valid, check_program, check_program_md in *.
+  cbn [apply_rewrite]. rewrite map_units_names.
+  apply bind_ok_inv in HV. destruct HV as [x0 [H0 HV]]. rewrite H0. cbn [bind].
+  apply bind_ok_inv in HV. destruct HV as [GE' [HGE HV]].
+  set (m := max_nid p + 1).
+  set (f := fun u : dunit => DUnit (u_ctx u) (add_ubody s m x k (u_body u))).
+  assert (Hxv : vis0 x = []) by (apply vis0_other; assumption).
+  assert (HU : Forall (fun l => Forall (fun u => freshl [x] (oc_dunit u) /\ (k = 0 \/ k = 2 \/ ndl id_true (oc_dunit u))) (l_units l)) p).
+  { apply Forall_forall. intros l Hl. apply Forall_forall. intros u Hu. split.
+    - apply Forall_forall. intros t Ht [E|[]]. apply Hfresh. unfold idents_program. apply in_or_app. left.
+      unfold idents_of. rewrite E. apply in_map. unfold occs_program. apply in_flat_map. exists l. split; [exact Hl|].
+      apply in_flat_map. exists u. split; [exact Hu|exact Ht].
+    - destruct Hk as [Hk|[Hk|Hk]]; [left; exact Hk|right; left; exact Hk|]. right. right. intros n Hn. apply (Hk n).
+      unfold occs_program. apply in_flat_map. exists l. split; [exact Hl|]. apply in_flat_map. exists u. split; [exact Hu|exact Hn]. }
+  assert (HL : check_libs Exactly [] (map l_name p) 0 (map (map_lib f) p) = Ok GE').
+  { apply (lift_libs Exactly (map l_name p) s f (fun u => memb s (asites_ubody (u_body u)))
+             (fun _ GE => gprist x GE /\ (k = 0 \/ k = 2 \/ gprist id_true GE))
+             (fun u => freshl [x] (oc_dunit u) /\ (k = 0 \/ k = 2 \/ ndl id_true (oc_dunit u)))).
+    - intros u Hu. unfold f. rewrite add_ubody_id; [apply dunit_eta|]. intro Hin. apply Hu. apply dsites_dunit_nids. exact Hin.
+    - intros u Hu. apply dsites_dunit_nids. apply asites_dsites. apply memb_In. exact Hu.
+    - intros GE lib uid u g [GP GT] [Fr Nt] Hh Nd Hc. apply add_unit_ok; try assumption.
+      + destruct GT as [GT|[GT|GT]]; [left; exact GT|right; left; exact GT|].
+        destruct Nt as [Nt|[Nt|Nt]]; [left; exact Nt|right; left; exact Nt|]. right. right. split; assumption.
+      + apply memb_In. exact Hh.
+    - intros GE lib uid u g [GP GT] [Fr Nt] Hc. split.
+      + eapply check_unit_gprist; [exact GP|apply freshl_ndl; exact Fr|exact Hc].
+      + destruct GT as [GT|[GT|GT]]; [left; exact GT|right; left; exact GT|].
+        destruct Nt as [Nt|[Nt|Nt]]; [left; exact Nt|right; left; exact Nt|]. right. right.
+        eapply check_unit_gprist; eassumption.
+    - split; [intros g []|]. right. right. intros g [].
+    - exact HU.
+    - exact Hnd.
+    - apply add_sites_hit. exact Hsite.
+    - exact HGE. }
+  change (map_units f p) with (map (map_lib f) p). rewrite HL. cbn [bind]. exact HV.
+Qed.
+
+(* the pinned statement is refuted by a concrete program *)
+Definition adddecl_cex : program :=
+  [Lib 10 [DUnit [] (UEnt (Occ 100 11) [] []);
+           DUnit [] (UArch (Occ 101 12) (Occ 102 11) [DSignal (Occ 103 13) TMBit None] CNil)]].
+Theorem adddecl_valid_as_pinned_is_false :
+  ~ (forall p s x k, Valid p -> applicable (RAddDecl s x k) p = true -> Valid (apply_rewrite (RAddDecl s x k) p)).
+Proof.
+  intros H. specialize (H adddecl_cex 103 id_false 0).
+  assert (V : Valid adddecl_cex) by (vm_compute; reflexivity).
+  assert (A : applicable (RAddDecl 103 id_false 0) adddecl_cex = true) by (vm_compute; reflexivity).
+  specialize (H V A). vm_compute in H. discriminate H.
+Qed.
+
+(* ------------------------------------------------------------------------------------------------------------------
+   UNPROVED — and FALSE as stated (checked with vm_compute):
+
+   Theorem adddecl_valid : forall p s x k,
+     Valid p -> applicable (RAddDecl s x k) p = true -> Valid (apply_rewrite (RAddDecl s x k) p).
+
+   Counterexample 1 (x may be a predefined literal).
+     p1 = [Lib 10 [DUnit [] (UEnt (Occ 100 11) [] []);
+                   DUnit [] (UArch (Occ 101 12) (Occ 102 11) [DSignal (Occ 103 13) TMBit None] CNil)]]
+     check_program p1 = Ok tt, applicable (RAddDecl 103 2 0) p1 = true (2 = id_false does not occur in p1 and is
+     not 0), but check_program (apply_rewrite (RAddDecl 103 2 0) p1) = Bad 104 Conservative: the inserted constant
+     would hide the predefined literal (no-hiding restriction of `declare`).  Likewise for x = 1 = id_true.
+   Counterexample 2 (k >= 3, or k = 1 in a package body: the inserted declaration is
+     `constant x : boolean := true`).  Two packages each declare `function 1 (a : integer) return integer`
+     (identifier 1 = id_true; accepted: it overloads the literal) with bodies; an architecture imports both with
+     `use l.p.all`: the two functions have the same profile and different homes, so `true` is incoherent there
+     (`vis_occ` answers Conservative) — but the architecture never uses `true`, so p is Valid.  With x = 40, k = 3
+     the rewrite is applicable and the result is rejected (Bad _ Conservative at the inserted `true`).
+   Missing hypotheses: x <> id_true, x <> id_false, and (k = 0 \/ k = 2 \/ id_true is never declared in p) — this
+   is `adddecl_side`, and `adddecl_valid_partial` above is the theorem with it.  (A natural repair of `applicable`:
+   require first_user_ident <= x, and that no declared name of p is below first_user_ident.)
+   ------------------------------------------------------------------------------------------------------------------ *)
